@@ -45,6 +45,7 @@ def oracle(case, out):
 def run(ctx):
     run_hist(ctx, PROFILE, oracle, 1500, 30000, CORPUS)
 
-LEVEL_TEXT = "placeholder"; LEVEL_NOTE = "placeholder"
 TECHNIQUE = "Lean 4 theorem (next instance = least greater handle with matching samples) + differential correspondence"
-CLAIMED = False
+LEVEL_TEXT = 'Kernel-checked Lean theorems: next_instance returns the least known handle greater than the given one and none only if there is none (C23_next_is_least, for all instance lists), and read/take_next_instance return the read/take of an instance after prev that has matching samples, skipping instances without (C23_loop_sound). Tied to UserDefinedDataReader::read/take_next_instance by differential runs; the oracle recomputes the expected instance from the dumps.'
+LEVEL_NOTE = 'Trusted: Lean kernel (axioms audited: propext, Classical.choice, Quot.sound at most); the hand-written model Model/ReaderHist.lean of data_reader_entity.rs / user_defined_data_reader.rs (handles as Nat, times as total ns, Vec as List); the hist harness that drives the real DataReaderEntity<()> / UserDefinedDataReader through the cfg(dust_dds_verif) re-export and prints canonical lines; the Python oracle. The differential run validates the model on sampled op sequences only; the theorems are about the model.'
+DESIGN_REF = 'DESIGN.md section 5 C23'
